@@ -1,11 +1,294 @@
 import VrpModel.ArcBased
-import VrpModel.SeqBased
 import VrpProofs.Props.C18
+import VrpProofs.Props.C02
+import VrpProofs.Props.C04
+import VrpProofs.Lemmas.ArcRows
 
+/-!
+# C05 — Arc-based constraints describe exactly the time-feasible route sets (part 1: local form, objective)
+-/
 namespace Vrp.C05
 open Vrp
 
-/-- placeholder until the property theorems are merged -/
-theorem placeholder_true : True := trivial
+/-- the moves `(i, s, j, t)` selected by `x`, in variable order -/
+def sel (I : ArcInst) (x : Vec) : List ATup :=
+  (List.range I.vars.length).filterMap fun k => if x k = 1 then I.vars[k]? else none
+
+def arcCost (g : Graph) (i j : ℕ) : ℚ := ((g.arc? i j).map (·.cost)).getD 0
+
+/-- standing assumptions on the instance: sorted duplicate-free grid (what `add_time_points` produces from a
+    duplicate-free input) and a self-consistent graph -/
+structure WF (I : ArcInst) : Prop where
+  sorted : I.T.Pairwise (· ≤ ·)
+  nodup : I.T.Nodup
+  graph : C15.Inv I.g
+
+/-- the constraint system in words: every customer is arrived at exactly once, and at every customer
+    `(c, s)` the number of selected arrivals equals the number of selected departures -/
+def Local (I : ArcInst) (x : Vec) : Prop :=
+  (∀ c, 1 ≤ c → c < I.g.nodes.length → ((sel I x).filter fun u => u.2.2.1 = c).length = 1) ∧
+  (∀ c s, 1 ≤ c → c < I.g.nodes.length →
+    ((sel I x).filter fun u => u.2.2.1 = c ∧ u.2.2.2 = s).length
+      = ((sel I x).filter fun u => u.1 = c ∧ u.2.1 = s).length)
+
+/-! ## helper lemmas -/
+
+theorem sel_eq_selFrom (I : ArcInst) (x : Vec) : sel I x = selFrom 0 I.vars x :=
+  filterMap_range_eq_selFrom I.vars x
+
+theorem vars_nodup (I : ArcInst) (hw : WF I) : I.vars.Nodup :=
+  C18.arc_vars_nodup I hw.sorted hw.nodup hw.graph
+
+theorem mem_sel (I : ArcInst) (x : Vec) (u : ATup) :
+    u ∈ sel I x ↔ ∃ k, x k = 1 ∧ I.vars[k]? = some u := by
+  unfold sel
+  simp only [List.mem_filterMap, List.mem_range]
+  constructor
+  · rintro ⟨k, _, h⟩
+    split_ifs at h with hx
+    exact ⟨k, hx, h⟩
+  · rintro ⟨k, hx, h⟩
+    exact ⟨k, (List.getElem?_eq_some_iff.mp h).1, by simp [hx, h]⟩
+
+theorem sel_subset_vars (I : ArcInst) (x : Vec) {u : ATup} (h : u ∈ sel I x) : u ∈ I.vars := by
+  obtain ⟨k, _, hk⟩ := (mem_sel I x u).1 h
+  exact List.mem_of_getElem? hk
+
+/-- both endpoints of a variable lie in the window scan of their node -/
+theorem vars_mem_win (I : ArcInst) {u : ATup} (hu : u ∈ I.vars) :
+    u.2.1 ∈ winLoop I.T (I.g.lo u.1) (I.g.hi u.1) ∧
+    u.2.2.2 ∈ winLoop I.T (I.g.lo u.2.2.1) (I.g.hi u.2.2.1) := by
+  unfold ArcInst.vars at hu
+  simp only [List.mem_flatMap, List.mem_filterMap] at hu
+  obtain ⟨e, _, s, hs, t, ht, h⟩ := hu
+  split_ifs at h
+  simp only [Option.some.injEq] at h
+  subst h
+  exact ⟨hs, ht⟩
+
+theorem mem_flowKeys (I : ArcInst) (c : ℕ) (s : ℚ) :
+    (c, s) ∈ I.flowKeys ↔ 1 ≤ c ∧ c < I.g.nodes.length ∧ s ∈ winLoop I.T (I.g.lo c) (I.g.hi c) := by
+  unfold ArcInst.flowKeys
+  simp only [List.mem_flatMap, List.mem_range, List.mem_map, Prod.mk.injEq]
+  constructor
+  · rintro ⟨k, hk, s', hs', rfl, rfl⟩
+    exact ⟨by omega, by omega, hs'⟩
+  · rintro ⟨h1, h2, hs⟩
+    refine ⟨c - 1, by omega, s, ?_, by omega, rfl⟩
+    rw [show c - 1 + 1 = c by omega]
+    exact hs
+
+theorem flowKeys_nodup (I : ArcInst) (hw : WF I) : I.flowKeys.Nodup := by
+  unfold ArcInst.flowKeys
+  rw [List.nodup_flatMap]
+  constructor
+  · intro k _
+    exact List.Nodup.map (fun a b h => by simpa using h) (winLoop_nodup _ _ _ hw.nodup)
+  · refine List.Pairwise.imp ?_ (List.nodup_range (n := I.g.nodes.length - 1))
+    intro k k' hne p hp hp'
+    simp only [List.mem_map] at hp hp'
+    obtain ⟨s, _, rfl⟩ := hp
+    obtain ⟨s', _, h⟩ := hp'
+    simp only [Prod.mk.injEq] at h
+    omega
+
+/-! ### the rows of `A` -/
+
+/-- flow triples contributed by variable `p.2` in column `p.1` -/
+def flowF (fk : List (ℕ × ℚ)) (p : ℕ × ATup) : List (ℕ × ℕ × ℚ) :=
+  (match idxOf? fk (p.2.1, p.2.2.1) with | some r => [(r, p.1, (-1 : ℚ))] | none => []) ++
+  (match idxOf? fk (p.2.2.2.1, p.2.2.2.2) with | some r => [(r, p.1, (1 : ℚ))] | none => [])
+
+/-- visit triple contributed by variable `p.2` in column `p.1` -/
+def visitF (nflow : ℕ) (p : ℕ × ATup) : Option (ℕ × ℕ × ℚ) :=
+  if p.2.2.2.1 = 0 then none else some (nflow + (p.2.2.2.1 - 1), p.1, (1 : ℚ))
+
+theorem data_A (I : ArcInst) :
+    I.data.A = (idxFrom 0 I.vars).flatMap (flowF I.flowKeys)
+      ++ (idxFrom 0 I.vars).filterMap (visitF I.flowKeys.length) := by
+  rw [← range_zip_eq_idxFrom]
+  rfl
+
+/-- coefficient of variable `u` in row `r` -/
+def rowW (I : ArcInst) (r : ℕ) (u : ATup) : ℚ :=
+  (if idxOf? I.flowKeys (u.2.2.1, u.2.2.2) = some r then 1 else 0)
+    - (if idxOf? I.flowKeys (u.1, u.2.1) = some r then 1 else 0)
+    + (if u.2.2.1 ≠ 0 ∧ I.flowKeys.length + (u.2.2.1 - 1) = r then 1 else 0)
+
+theorem rowW_entry (I : ArcInst) (r : ℕ) (x : Vec) (p : ℕ × ATup) :
+    ((flowF I.flowKeys p).map fun e => if e.1 = r then e.2.2 * x e.2.1 else 0).sum
+      + (visitF I.flowKeys.length p).elim 0 (fun e => if e.1 = r then e.2.2 * x e.2.1 else 0)
+    = rowW I r p.2 * x p.1 := by
+  obtain ⟨k, i, s, j, t⟩ := p
+  unfold flowF visitF rowW
+  simp only
+  cases h1 : idxOf? I.flowKeys (i, s) <;> cases h2 : idxOf? I.flowKeys (j, t) <;>
+    by_cases hj : j = 0 <;> simp [hj] <;> split_ifs <;> ring
+
+theorem data_cols_lt (I : ArcInst) (hw : WF I) : ∀ e ∈ I.data.A, e.2.1 < I.vars.length := by
+  have h := C02.arc_wellShaped I hw.graph
+  unfold MPData.wellShaped at h
+  simp only [Bool.and_eq_true, List.all_eq_true, decide_eq_true_eq] at h
+  intro e he
+  exact (h.1.1.2 e he).2
+
+/-- for a 0/1 vector, the value of row `r` is the sum of the row coefficients of the selected moves -/
+theorem rowVal_eq (I : ArcInst) (hw : WF I) (x : Vec) (hx : IsBin I.data.n x) (r : ℕ) :
+    I.data.rowVal x r = ((sel I x).map (rowW I r)).sum := by
+  have hn : I.data.n = I.vars.length := rfl
+  unfold MPData.rowVal MPData.Amat
+  rw [sumTo_eq, hn, sum_cooEntry_mul _ _ (data_cols_lt I hw), data_A, List.map_append, List.sum_append,
+    sum_flatMap_map, sum_filterMap_map, ← List.sum_map_add]
+  rw [List.map_congr_left (fun p _ => rowW_entry I r x p), sel_eq_selFrom]
+  exact sum_idx_mul_eq_sel 0 I.vars x (fun k _ hk => hx k (by rw [hn]; omega)) (rowW I r)
+
+/-- value of the flow-conservation row of `(c, s)`: selected arrivals minus selected departures -/
+theorem rowVal_flow (I : ArcInst) (hw : WF I) (x : Vec) (hx : IsBin I.data.n x) (r c : ℕ) (s : ℚ)
+    (hr : I.flowKeys[r]? = some (c, s)) :
+    I.data.rowVal x r = (((sel I x).filter fun u => u.2.2.1 = c ∧ u.2.2.2 = s).length : ℚ)
+      - (((sel I x).filter fun u => u.1 = c ∧ u.2.1 = s).length : ℚ) := by
+  rw [rowVal_eq I hw x hx]
+  have hlt : r < I.flowKeys.length := (List.getElem?_eq_some_iff.mp hr).1
+  have hW : ∀ u : ATup, rowW I r u
+      = (if u.2.2.1 = c ∧ u.2.2.2 = s then 1 else 0) - (if u.1 = c ∧ u.2.1 = s then 1 else 0) := by
+    intro u
+    unfold rowW
+    have h3 : ¬ (u.2.2.1 ≠ 0 ∧ I.flowKeys.length + (u.2.2.1 - 1) = r) := by omega
+    have e1 : (idxOf? I.flowKeys (u.2.2.1, u.2.2.2) = some r) ↔ (u.2.2.1 = c ∧ u.2.2.2 = s) := by
+      rw [idxOf?_eq_some_iff _ (flowKeys_nodup I hw), hr, Option.some.injEq, Prod.ext_iff]
+      exact ⟨fun h => ⟨h.1.symm, h.2.symm⟩, fun h => ⟨h.1.symm, h.2.symm⟩⟩
+    have e2 : (idxOf? I.flowKeys (u.1, u.2.1) = some r) ↔ (u.1 = c ∧ u.2.1 = s) := by
+      rw [idxOf?_eq_some_iff _ (flowKeys_nodup I hw), hr]
+      simp [eq_comm]
+    rw [if_neg h3, add_zero, if_congr e1 rfl rfl, if_congr e2 rfl rfl]
+  rw [List.map_congr_left (fun u _ => hW u), sum_map_sub', sum_ite_eq_length_filter,
+    sum_ite_eq_length_filter]
+
+/-- value of the visit row of customer `k + 1`: selected arrivals at that customer -/
+theorem rowVal_visit (I : ArcInst) (hw : WF I) (x : Vec) (hx : IsBin I.data.n x) (k : ℕ) :
+    I.data.rowVal x (I.flowKeys.length + k)
+      = (((sel I x).filter fun u => u.2.2.1 = k + 1).length : ℚ) := by
+  rw [rowVal_eq I hw x hx]
+  have hW : ∀ u : ATup, rowW I (I.flowKeys.length + k) u = (if u.2.2.1 = k + 1 then 1 else 0) := by
+    intro u
+    unfold rowW
+    have h1 : ¬ idxOf? I.flowKeys (u.2.2.1, u.2.2.2) = some (I.flowKeys.length + k) := by
+      intro h; have := idxOf?_lt h; omega
+    have h2 : ¬ idxOf? I.flowKeys (u.1, u.2.1) = some (I.flowKeys.length + k) := by
+      intro h; have := idxOf?_lt h; omega
+    have e3 : (u.2.2.1 ≠ 0 ∧ I.flowKeys.length + (u.2.2.1 - 1) = I.flowKeys.length + k)
+        ↔ u.2.2.1 = k + 1 := by omega
+    rw [if_neg h1, if_neg h2, sub_zero, zero_add, if_congr e3 rfl rfl]
+  rw [List.map_congr_left (fun u _ => hW u), sum_ite_eq_length_filter]
+
+theorem data_m (I : ArcInst) : I.data.m = I.flowKeys.length + (I.g.nodes.length - 1) := rfl
+
+theorem bvec_flow (I : ArcInst) (r : ℕ) (h : r < I.flowKeys.length) : I.data.bvec r = 0 := by
+  show vecOf (List.replicate I.flowKeys.length 0 ++ List.replicate (I.g.nodes.length - 1) 1) r = 0
+  simp [vecOf, List.getD_eq_getElem?_getD, List.getElem?_append, h]
+
+theorem bvec_visit (I : ArcInst) (k : ℕ) (h : k < I.g.nodes.length - 1) :
+    I.data.bvec (I.flowKeys.length + k) = 1 := by
+  show vecOf (List.replicate I.flowKeys.length 0 ++ List.replicate (I.g.nodes.length - 1) 1)
+    (I.flowKeys.length + k) = 1
+  simp [vecOf, List.getD_eq_getElem?_getD, h]
+
+theorem feasible_iff_rows (I : ArcInst) (x : Vec) :
+    I.data.feasibleB x = true ↔ ∀ r < I.data.m, I.data.rowVal x r = I.data.bvec r := by
+  have hq : quad I.data.n I.data.Rmat x = 0 := by
+    have : I.data.Rmat = fun _ _ => 0 := by funext i j; simp [MPData.Rmat, ArcInst.data]
+    rw [this]; simp [quad, sumTo_eq]
+  unfold MPData.feasibleB
+  simp [hq]
+
+/-! ## statements to prove (replace every `sorry`) -/
+
+theorem sel_mem_iff (I : ArcInst) (hw : WF I) (x : Vec) (u : ATup) :
+    u ∈ sel I x ↔ ∃ k, I.varIndex u = some k ∧ x k = 1 := by
+  rw [mem_sel]
+  constructor
+  · rintro ⟨k, hx, hk⟩
+    exact ⟨k, (C18.arc_index_tuple_inverse I hw.sorted hw.nodup hw.graph u k).2 hk, hx⟩
+  · rintro ⟨k, hk, hx⟩
+    exact ⟨k, hx, (C18.arc_index_tuple_inverse I hw.sorted hw.nodup hw.graph u k).1 hk⟩
+
+theorem sel_nodup (I : ArcInst) (hw : WF I) (x : Vec) : (sel I x).Nodup := by
+  unfold sel
+  refine List.Nodup.filterMap ?_ List.nodup_range
+  intro k k' u hu hu'
+  simp only [Option.mem_def] at hu hu'
+  split_ifs at hu hu'
+  have h1 := (C18.arc_index_tuple_inverse I hw.sorted hw.nodup hw.graph u k).2 hu
+  have h2 := (C18.arc_index_tuple_inverse I hw.sorted hw.nodup hw.graph u k').2 hu'
+  rw [h1] at h2
+  exact Option.some.inj h2
+
+/-- every selected move is an admissible decision: existing arc, both times on the grid inside the
+    respective windows, departure + travel ≤ arrival -/
+theorem sel_admissible (I : ArcInst) (hw : WF I) (x : Vec) (u : ATup) (h : u ∈ sel I x) :
+    I.admissible u = true :=
+  (C18.arc_vars_mem_iff_admissible I hw.sorted hw.graph u).1 (sel_subset_vars I x h)
+
+/-- **the linear constraints say exactly: visit every customer once, conserve flow at every (customer, time)** -/
+theorem arc_feasible_iff_local (I : ArcInst) (hw : WF I) (x : Vec) (hx : IsBin I.data.n x) :
+    I.data.feasibleB x = true ↔ Local I x := by
+  rw [feasible_iff_rows, data_m]
+  constructor
+  · intro h
+    refine ⟨?_, ?_⟩
+    · intro c hc1 hc2
+      have hrow := h (I.flowKeys.length + (c - 1)) (by omega)
+      rw [rowVal_visit I hw x hx, bvec_visit I (c - 1) (by omega), show c - 1 + 1 = c by omega] at hrow
+      exact_mod_cast hrow
+    · intro c s hc1 hc2
+      by_cases hmem : (c, s) ∈ I.flowKeys
+      · obtain ⟨r, hr⟩ := List.getElem?_of_mem hmem
+        have hlt : r < I.flowKeys.length := (List.getElem?_eq_some_iff.mp hr).1
+        have hrow := h r (by omega)
+        rw [rowVal_flow I hw x hx r c s hr, bvec_flow I r hlt, sub_eq_zero] at hrow
+        exact_mod_cast hrow
+      · have h1 : ((sel I x).filter fun u => u.2.2.1 = c ∧ u.2.2.2 = s) = [] := by
+          rw [List.filter_eq_nil_iff]
+          intro u hu hc
+          simp only [decide_eq_true_eq] at hc
+          apply hmem
+          have := (vars_mem_win I (sel_subset_vars I x hu)).2
+          rw [hc.1, hc.2] at this
+          exact (mem_flowKeys I c s).2 ⟨hc1, hc2, this⟩
+        have h2 : ((sel I x).filter fun u => u.1 = c ∧ u.2.1 = s) = [] := by
+          rw [List.filter_eq_nil_iff]
+          intro u hu hc
+          simp only [decide_eq_true_eq] at hc
+          apply hmem
+          have := (vars_mem_win I (sel_subset_vars I x hu)).1
+          rw [hc.1, hc.2] at this
+          exact (mem_flowKeys I c s).2 ⟨hc1, hc2, this⟩
+        rw [h1, h2]
+  · rintro ⟨hv, hf⟩ r hr
+    by_cases hlt : r < I.flowKeys.length
+    · obtain ⟨⟨c, s⟩, hcs⟩ : ∃ p, I.flowKeys[r]? = some p := ⟨_, List.getElem?_eq_getElem hlt⟩
+      have hmem := (mem_flowKeys I c s).1 (List.mem_of_getElem? hcs)
+      rw [rowVal_flow I hw x hx r c s hcs, bvec_flow I r hlt, hf c s hmem.1 hmem.2.1, sub_self]
+    · obtain ⟨k, rfl⟩ : ∃ k, r = I.flowKeys.length + k := ⟨r - I.flowKeys.length, by omega⟩
+      have hk : k < I.g.nodes.length - 1 := by omega
+      rw [rowVal_visit I hw x hx, bvec_visit I k hk, hv (k + 1) (by omega) (by omega)]
+      norm_num
+
+set_option linter.unusedVariables false in
+/-- **objective = summed cost of the arcs used** (holds without `hw`; the hypothesis is kept for uniformity) -/
+theorem arc_objective_eq_cost (I : ArcInst) (hw : WF I) (x : Vec) (hx : IsBin I.data.n x) :
+    I.data.objective x = ((sel I x).map fun u => arcCost I.g u.1 u.2.2.1).sum := by
+  have hn : I.data.n = I.vars.length := rfl
+  have hq : quad I.data.n I.data.Qmat x = 0 := by
+    have : I.data.Qmat = fun _ _ => 0 := by
+      funext i j; simp [MPData.Qmat, ArcInst.data, cooEntry_nil]
+    rw [this]; simp [quad, sumTo_eq]
+  have hc : I.data.cvec = fun k => (I.vars.map fun u => arcCost I.g u.1 u.2.2.1).getD k 0 := rfl
+  unfold MPData.objective
+  rw [hq, add_zero, dot_eq, hn, hc, sel_eq_selFrom,
+    ← sum_idx_mul_eq_sel 0 I.vars x (fun k _ hk => hx k (by rw [hn]; omega))]
+  have h := sum_range_getD_eq 0 I.vars (fun u => arcCost I.g u.1 u.2.2.1) x
+  simp only [Nat.zero_add] at h
+  exact h
 
 end Vrp.C05
